@@ -39,3 +39,4 @@ def build(p):
           'tree_util contracts are the real bodies verified in C07 (inlined here from the source)')
   p.not_covered.append('size of the floating-point rounding error; that plain SGD leaves params unchanged on a zero mean '
                        '(sgd contract p - lr*0 = p is a one-line consequence of apply.post)')
+  p.not_covered.append('order-independence of the aggregation when the backend returns the clients in another order (pmap): native cross-check only')
